@@ -377,6 +377,8 @@ def _merge_segments(fd, e: ast.AST, at: ast.AST, depth: int = 0):
             real = [d for d in defs if isinstance(d, ast.stmt)]
             if not real:
                 return [("spread", "meta")]
+            if len(real) < len(defs) and all(isinstance(d, ast.Assign) and isinstance(d.value, ast.Dict) and not d.value.keys for d in real):
+                return [("spread", "meta")]      # `if meta is None: meta = {}`: the argument, or nothing
             if len(real) == 1 and isinstance(real[0], ast.Assign):
                 return _merge_segments(fd, real[0].value, real[0], depth + 1)
             if all(isinstance(d, ast.Assign) and isinstance(d.value, ast.Dict) and not d.value.keys for d in real):
